@@ -461,6 +461,12 @@ impl Bmi2StringProcessor {
     #[cfg(target_arch = "x86_64")]
     #[target_feature(enable = "bmi1,bmi2")]
     unsafe fn extract_utf8_chars_bmi2_impl(&self, input: &[u8]) -> Result<Vec<u32>> {
+        // First validate that the entire input is valid UTF-8 (the decoder below only splits
+        // sequences, it does not check continuation bytes, overlong forms or surrogates)
+        if std::str::from_utf8(input).is_err() {
+            return Err(ZiporaError::invalid_data("Invalid UTF-8 sequence"));
+        }
+
         let mut chars = Vec::new();
         let mut i = 0;
 
@@ -492,6 +498,11 @@ impl Bmi2StringProcessor {
     #[cfg(target_arch = "x86_64")]
     #[target_feature(enable = "bmi1,bmi2")]
     unsafe fn utf8_to_utf16_bmi2_impl(&self, input: &[u8]) -> Result<Vec<u16>> {
+        // First validate that the entire input is valid UTF-8 (see extract_utf8_chars_bmi2_impl)
+        if std::str::from_utf8(input).is_err() {
+            return Err(ZiporaError::invalid_data("Invalid UTF-8 sequence"));
+        }
+
         let mut utf16_output = Vec::new();
         let mut i = 0;
 
@@ -1016,40 +1027,30 @@ impl Bmi2StringProcessor {
                 *position += 1;
                 Some(first_byte as u32)
             }
+            // char_bytes always holds the 4 bytes starting at *position (the callers check
+            // i + 4 <= len), so every sequence length fits
             0xC0..=0xDF => {
-                if *position + 1 < 4 {
-                    let second_byte = ((char_bytes >> 8) & 0xFF) as u8;
-                    *position += 2;
-                    Some(((first_byte as u32 & 0x1F) << 6) | (second_byte as u32 & 0x3F))
-                } else {
-                    None
-                }
+                let second_byte = ((char_bytes >> 8) & 0xFF) as u8;
+                *position += 2;
+                Some(((first_byte as u32 & 0x1F) << 6) | (second_byte as u32 & 0x3F))
             }
             0xE0..=0xEF => {
-                if *position + 2 < 4 {
-                    let second_byte = ((char_bytes >> 8) & 0xFF) as u8;
-                    let third_byte = ((char_bytes >> 16) & 0xFF) as u8;
-                    *position += 3;
-                    Some(((first_byte as u32 & 0x0F) << 12) | 
-                         ((second_byte as u32 & 0x3F) << 6) | 
-                         (third_byte as u32 & 0x3F))
-                } else {
-                    None
-                }
+                let second_byte = ((char_bytes >> 8) & 0xFF) as u8;
+                let third_byte = ((char_bytes >> 16) & 0xFF) as u8;
+                *position += 3;
+                Some(((first_byte as u32 & 0x0F) << 12) | 
+                     ((second_byte as u32 & 0x3F) << 6) | 
+                     (third_byte as u32 & 0x3F))
             }
             0xF0..=0xF7 => {
-                if *position + 3 < 4 {
-                    let second_byte = ((char_bytes >> 8) & 0xFF) as u8;
-                    let third_byte = ((char_bytes >> 16) & 0xFF) as u8;
-                    let fourth_byte = ((char_bytes >> 24) & 0xFF) as u8;
-                    *position += 4;
-                    Some(((first_byte as u32 & 0x07) << 18) | 
-                         ((second_byte as u32 & 0x3F) << 12) | 
-                         ((third_byte as u32 & 0x3F) << 6) | 
-                         (fourth_byte as u32 & 0x3F))
-                } else {
-                    None
-                }
+                let second_byte = ((char_bytes >> 8) & 0xFF) as u8;
+                let third_byte = ((char_bytes >> 16) & 0xFF) as u8;
+                let fourth_byte = ((char_bytes >> 24) & 0xFF) as u8;
+                *position += 4;
+                Some(((first_byte as u32 & 0x07) << 18) | 
+                     ((second_byte as u32 & 0x3F) << 12) | 
+                     ((third_byte as u32 & 0x3F) << 6) | 
+                     (fourth_byte as u32 & 0x3F))
             }
             _ => None,
         }
